@@ -48,6 +48,8 @@ pub fn entries() -> Vec<Entry> {
         Entry { id: "C08", rule: "probe points after allocation and after GCs: word-aligned addresses around/inside objects for is_mmtk_object, interior pointers x max_search_bytes {1,2,7,8,9,d,d+1,d+2,4096,1MiB} for find_object_from_internal_pointer, addresses outside the heap; oracle = shadow interval map; non-trivial probe = unaligned pointer, pointer >= 4096 bytes into the object, or limit <= distance", run: c08 },
         Entry { id: "C09", rule: "allocate-drop-GC cycles (10..40 cycles quick) with generated size mixes incl. LOS/non-moving/weak/finalizers for every collecting plan; oracle = no out_of_memory, used_bytes after cycle k <= max(first three) + one chunk, free+used <= total; non-trivial = >=10 cycles", run: c09 },
         Entry { id: "C10", rule: "heaps filled with reachable data, then alloc_with_options over all 8 flag combinations x size classes (small..usize::MAX) x semantics; oracle over callback counters: no OOM call when disallowed, no block_for_gc when not at safepoint, OOM only after a GC (or obviously too large), null on OOM; non-trivial = >=1 call returned null or called out_of_memory", run: c10 },
+        Entry { id: "C11", rule: "generated programs x 11 plans x 1-4 workers x 1-3 mutators with the scheduler event log on; per collection: stop_all_mutators exactly once and before the first stop-the-world bucket opens, no stop-the-world packet and no scan_object/copy callback outside the stop..resume bracket (copy only, for the concurrent plan), every bound mutator scanned exactly once per root-scanning round, resume_mutators exactly once with no packet executing and none pending; non-trivial = >=2 mutators bound and >=2 workers and >=2 collections", run: c11 },
+        Entry { id: "C15", rule: "generated programs x 11 plans x 1-4 workers with the scheduler event log on; every stop-the-world bucket other than Prepare is opened by the last parked worker (all N parked in the log, no packet executing) with every earlier enabled bucket open and empty (snapshot taken inside WorkBucket::update), in stage order; adds and starts of packets match by type, nothing pending and every stop-the-world bucket closed and empty at resume_mutators; non-trivial = >=3 workers and >=1 bucket opened after packets had been added to it by packets of earlier buckets, or >=2 packets executing in parallel", run: c15 },
         Entry { id: "C12", rule: "ConcurrentImmix programs sized to cross the concurrent trigger, overwriting references of snapshot objects / region copies / new allocations during marking; oracle = shadow walk after every pause + survivors of snapshot; non-trivial = >=1 pointer overwrite while concurrent marking was in progress and >=2 pauses", run: c12 },
         Entry { id: "C13", rule: "programs with VM-side ephemeron tables incl. dependency chains of depth 0..6; oracle = is_reachable of the model's retained set at the first process_weak_refs call, closure of values traced in round j reachable at round j+1, true => another call / false => none, forward_weak_refs exactly when the plan needs it; non-trivial = >=3 rounds in one GC", run: c13 },
         Entry { id: "C16", rule: "histories of GCs and fork cycles (prepare_to_fork, join every worker thread, after_fork) x 1-4 workers; oracle = every worker exits exactly once, after_fork spawns N workers with ordinals 0..N-1, later GCs satisfy the shadow walk; non-trivial = >=2 fork cycles with GCs in between", run: c16 },
@@ -173,6 +175,30 @@ fn c10(c: &mut Check) {
         let mut l = labels_common(v);
         if cv(v, "oom_obvious") > 0 {
             l.push("obvious_oom");
+        }
+        (nt, l)
+    });
+}
+
+fn c11(c: &mut Check) {
+    let n = c.tier.pick(1400, 60000);
+    run_e1(c, "stw-bracket", n, "C11", &[], || gen::case(&PLANS, Mix { gc_weight: 12, churn_weight: 2, mutator_ops: true, ..Mix::BASIC }, "C11", 80), |v| {
+        let nt = cv(v, "mutators_bound_at_end") >= 2 && cv(v, "workers") >= 2 && cv(v, "sched_pauses") >= 2;
+        let mut l = labels_common(v);
+        if cv(v, "sched_pauses") >= 2 {
+            l.push("ge2_pauses");
+        }
+        (nt, l)
+    });
+}
+
+fn c15(c: &mut Check) {
+    let n = c.tier.pick(1400, 60000);
+    run_e1(c, "bucket-order-and-packets", n, "C15", &[], || gen::case(&PLANS, Mix { gc_weight: 12, churn_weight: 2, weak: true, finalizers: true, ephemerons: true, ..Mix::BASIC }, "C15", 80), |v| {
+        let nt = cv(v, "workers") >= 3 && (cv(v, "sched_opened_with_late_packets") > 0 || cv(v, "sched_max_parallel_packets") >= 2);
+        let mut l = labels_common(v);
+        if cv(v, "sched_max_parallel_packets") >= 2 {
+            l.push("parallel_packets");
         }
         (nt, l)
     });
